@@ -169,6 +169,9 @@ Fixpoint usyms (e : expr) : res (list string) :=
          end) args 0%nat own
   | _ => Ok []
   end.
+(* the union of arg.unique_symbols over the optimised operands *)
+Fixpoint usyms_union (l : list expr) : res (list string) :=
+  match l with [] => Ok [] | a :: t => s <- usyms a ;; r <- usyms_union t ;; Ok (s ++ r)%list end.
 Definition same_set (a b : list string) : bool :=
   forallb (fun x => existsb (String.eqb x) b) a && forallb (fun x => existsb (String.eqb x) a) b.
 
@@ -252,12 +255,14 @@ Fixpoint opt (fuel : nat) (cancun : bool) (pc : pctx) (e : expr) : res (bool * e
       let args_changed := existsb fst rs in
       let argz := map snd rs in
       let fin := fin_ (opt f cancun pc) e args_changed in
-      (* should_check_symbols: after a binop rewrite the rebuilt node must carry the same symbols *)
+      (* should_check_symbols: after a binop rewrite the rebuilt node must carry the symbols of the (optimised)
+         operands -- /repo 8260fcf; before, the reference was `starting`, taken before the children were optimised *)
       let chk := match kind_of op with KBin o => match arith o with Some _ => true | None => false end | _ => false end in
       match top_rule cancun pc op argz with
       | AGeneric => fin false (Node op argz)
       | ARe c new =>
-          if chk then (now <- usyms new ;; if same_set starting now then fin c new else Err KeyErr)
+          if chk then (st <- usyms_union argz ;; now <- usyms new ;;
+                       if same_set st now then fin c new else Err KeyErr)
           else fin c new
       | ASingle x => r <- opt f cancun pc x ;; Ok (true, snd r)
       | AFail er => Err er
